@@ -715,6 +715,17 @@ class MatchKeySignature(MatchParameter):
         # pdb.set_trace()
         ksinfo = key_signature_pattern.search(kstr)
 
+        if ksinfo is not None and ksinfo.group("mode1").lower() not in (
+            "maj",
+            "min",
+            "major",
+            "minor",
+        ):
+            # not the old "C Maj"/"A min" spelling: in version 1.0.0 names such
+            # as "Cm" or "Bb" the letters after the step are a minor suffix or
+            # flats, not a mode word
+            ksinfo = None
+
         if ksinfo is None:
             fmt = "v1.0.0"
             ksinfo = kstr.split("/")
